@@ -142,6 +142,7 @@ Index(st, b, ix) ==
     [] OTHER -> Norm(MarkOpen(st), OpenV)
 
 ----------------------------------------------------------------------------
+RECURSIVE EvalSeqPT(_, _, _, _, _)
 RECURSIVE EvalE(_, _, _), EvalSeq(_, _, _, _, _), EvalSeqT(_, _, _, _, _, _), EvalMap(_, _, _, _, _), CallV(_, _, _, _, _), Invoke(_, _, _),
           Apply(_, _, _), BindParams(_, _, _, _, _), RunDefers(_, _, _, _, _),
           Exec(_, _, _), ExecList(_, _, _, _), While(_, _, _, _), CFor(_, _, _, _), ForIn(_, _, _, _, _, _),
@@ -153,6 +154,16 @@ EvalSeq(es, i, s, st, acc) ==
   IF i > Len(es) THEN Norm(st, ListV(acc))
   ELSE LET r == EvalE(es[i], s, st) IN
        IF r.o # "norm" THEN r ELSE EvalSeq(es, i + 1, s, r.st, Append(acc, r.v))
+
+\* arguments of the Go probe pt(a int64, b interface{}, c int64): each operand is converted for its parameter as soon as it has been evaluated,
+\* and a value that cannot be converted ends the evaluation of the operands after it (integers convert, strings and containers do not; the rest is open)
+EvalSeqPT(es, i, s, st, acc) ==
+  IF i > Len(es) THEN Norm(st, ListV(acc))
+  ELSE LET r == EvalE(es[i], s, st) IN
+       IF r.o # "norm" THEN r
+       ELSE IF i \in {1, 3} /\ r.v.t \in {"str", "list", "map", "func"} THEN Thr(r.st, RtErrV("convert"))
+       ELSE IF i \in {1, 3} /\ r.v.t # "int" THEN Norm(MarkOpen(r.st), OpenV)
+       ELSE EvalSeqPT(es, i + 1, s, r.st, Append(acc, r.v))
 
 \* typed literals ([]int64{...}, map[string]int64{...}, element type interface likewise): the same left-to-right order; each operand is
 \* converted to the declared type as soon as it has been evaluated, and a value that cannot be converted fails there -- before any later
@@ -338,6 +349,7 @@ Apply(f, vals, st) ==
                                  IF r1.o = "thr" THEN Thr(r1.st, RtErrV("callback")) ELSE IF r1.o # "norm" THEN r1
                                  ELSE LET r2 == Apply(vals[1], <<IntV(2)>>, [r1.st EXCEPT !.open = st.open]) IN       \* (what the callback returns is dropped: not an open point)
                                       IF r2.o = "thr" THEN Thr(r2.st, RtErrV("callback")) ELSE IF r2.o # "norm" THEN r2 ELSE Norm([r2.st EXCEPT !.open = st.open], NilV)
+           [] f.s = "pt" -> IF Len(vals) # 3 THEN Thr(st, RtErrV("arity")) ELSE Norm(Log(st, ListV(vals)), NilV)    \* func(a int64, b interface{}, c int64): see EvalSeqPT
            [] f.s = "pa" -> IF Len(vals) # 1 THEN Thr(st, RtErrV("arity")) ELSE Norm(Log(st, IntV(77)), NilV)   \* takes a pointer (&x, &a[i], &m.k), touches nothing
            [] OTHER -> Norm(MarkOpen(st), OpenV)
     [] OTHER -> Thr(st, RtErrV("notfunc"))
@@ -349,7 +361,7 @@ Apply(f, vals, st) ==
 CallV(f, e, s, st, deferred) ==
   IF f.t \notin {"func", "host"} THEN Thr(st, RtErrV("notfunc"))          \* decided before any argument is evaluated
   ELSE LET n == Len(e.args)
-           np == IF f.t = "func" THEN Len(st.fns[f.i].fn.ps) ELSE CASE f.s = "p" -> 1 [] f.s = "pv" -> 2 [] OTHER -> 1     \* (pn pa pp ch: 1)
+           np == IF f.t = "func" THEN Len(st.fns[f.i].fn.ps) ELSE CASE f.s = "p" -> 1 [] f.s = "pv" -> 2 [] f.s = "pt" -> 3 [] OTHER -> 1     \* (pn pa pp ch: 1)
            va == IF f.t = "func" THEN st.fns[f.i].fn.va ELSE f.s = "pn"
            preMismatch == IF ~e.spread THEN (~va /\ n # np) \/ (va /\ n < np - 1)
                           ELSE IF va THEN n # np /\ n # np - 1
@@ -359,7 +371,7 @@ CallV(f, e, s, st, deferred) ==
        ELSE IF preMismatch THEN Thr(IF \A j \in 1..n : e.args[j].k \in {"int", "str", "bool", "nil", "flt"} THEN st ELSE MarkOpen(st), RtErrV("arity"))
                                                                  \* rejected for arity: decided; whether operands that can be observed ran is left open
        ELSE IF e.spread /\ va /\ n = np - 1 THEN Thr(MarkOpen(st), RtErrV("open"))   \* spread list covering a fixed parameter too: open
-       ELSE LET a == EvalSeq(e.args, 1, s, st, <<>>) IN
+       ELSE LET a == IF f.t = "host" /\ f.s = "pt" /\ ~e.spread THEN EvalSeqPT(e.args, 1, s, st, <<>>) ELSE EvalSeq(e.args, 1, s, st, <<>>) IN
             IF a.o # "norm" THEN a
             ELSE LET vals0 == a.v.l IN
                  IF ~e.spread THEN
@@ -638,7 +650,7 @@ Exec(n, s, st) ==
 (* a whole run: top-level scope with the host probes, top-level defer list *)
 \* what the host binds in the outermost scope: the probe functions, and two nil containers of concrete Go types (hnm: map[string]int64(nil),
 \* hnl: []int64(nil)) -- to a script an empty map and an empty list, which grow by being stored back into the binding that holds them
-HostNames == {"p", "pv", "pn", "pa", "pp", "ch", "pe", "hnm", "hnl"}
+HostNames == {"p", "pv", "pn", "pa", "pp", "ch", "pe", "pt", "hnm", "hnl"}
 InitStateX(fuel, ext) ==
   [ext |-> ext, extsc |-> 1, sc |-> <<[par |-> 0, vars |-> [n \in HostNames |-> IF n = "hnm" THEN MapV(<<>>) ELSE IF n = "hnl" THEN ListV(<<>>) ELSE HostV(n)]]>>,
    log |-> <<>>, fuel |-> fuel, fns |-> <<>>, ds |-> <<<<>>>>, open |-> FALSE]
